@@ -4,6 +4,7 @@ pub mod val;
 pub mod prog;
 pub mod gen;
 pub mod eng;
+pub mod store;
 
 pub use runner::{CheckResult, Ctx, Fail, Obs, Tier};
 pub use val::{V, VT};
